@@ -1,5 +1,5 @@
 //! C15 — list construction, traversal, conversion and indexing are consistent.
-//! Complete enumeration of (xs, t) over a 13-element alphabet and 15 tails against ListModel.
+//! Complete enumeration of (xs, t) over a 13-element alphabet and 17 tails against ListModel.
 
 use crate::model::list::normalise;
 use crate::par::{count_upto, par_ranks};
@@ -40,6 +40,10 @@ fn tails() -> Vec<RV> {
         RV::kw("tk"),
         RV::Bytes(vec![]),
         RV::Vector(vec![]),
+        // tails that are themselves indexable by position: an index past the last cell must not
+        // carry on into them (seed C15-c)
+        RV::Vector(vec![RV::sym("va"), RV::sym("vb"), RV::sym("vc")]),
+        RV::Bytes(vec![1, 2, 3]),
         RV::list(vec![RV::sym("x"), RV::sym("y")]),
         RV::append(vec![RV::sym("x")], RV::sym("y")),
         RV::list(vec![RV::Null]),
@@ -162,13 +166,23 @@ fn check_list(v: &mut V, xs: &[RV], t: &RV, check_routes: bool) {
         v.fail("Value::to_ref_vec", format!("got {:?}", trv.map(|x| x.iter().map(|y| y.to_string()).collect::<Vec<_>>())));
     }
     // indexing
-    let mut idxs: Vec<usize> = (0..=n + 1).collect();
+    let mut idxs: Vec<usize> = (0..=n + 3).collect();
     idxs.push(usize::MAX);
     if n > 12 {
-        idxs = vec![0, 1, n / 2, n - 1, n, n + 1, usize::MAX];
+        idxs = vec![0, 1, n / 2, n - 1, n, n + 1, n + 2, n + 3, usize::MAX];
     }
     for &i in &idxs {
-        let expect = if n > 0 && i < n { Some(mx[i].clone()) } else { None };
+        // with no elements the "list" is the tail value itself; a vector is indexable by position
+        let expect = if n > 0 && i < n {
+            Some(mx[i].clone())
+        } else if n == 0 {
+            match &mt {
+                RV::Vector(items) => items.get(i).cloned(),
+                _ => None,
+            }
+        } else {
+            None
+        };
         let got = val.get(i).map(RV::from_value);
         if got != expect {
             v.fail("get(usize)", format!("get({}) = {:?}, expected {:?}", i, got.map(|x| x.to_string()), expect.as_ref().map(|x| x.to_string())));
@@ -506,8 +520,8 @@ pub fn run(ctx: &Ctx) -> Report {
         let total = nx * nt;
         let sub = Sub::new(
             "accessors",
-            "every element sequence xs of length 0..=4 over a 13-value alphabet (one per kind, a nested proper and a nested dotted list) x 15 tails (empty list, one atom per kind, vectors, lists that merge); all construction routes and all ten accessors compared with the Vec model; non-trivial = at least one element or a merging tail",
-            &format!("13^<=4 x 15 = {} cases, indices 0..=len+1 and usize::MAX", total),
+            "every element sequence xs of length 0..=4 over a 13-value alphabet (one per kind, a nested proper and a nested dotted list) x 17 tails (empty list, one atom per kind, empty and non-empty vectors and byte vectors, lists that merge); all construction routes and all ten accessors compared with the Vec model; non-trivial = at least one element or a merging tail",
+            &format!("13^<=4 x 17 = {} cases, indices 0..=len+3 (past the end of a 3-element vector tail) and usize::MAX", total),
         );
         let accs = par_ranks(total, |rank, acc| {
             let xr = rank / nt;
@@ -526,7 +540,7 @@ pub fn run(ctx: &Ctx) -> Report {
     }
     if ctx.want("long-lists") {
         let lens: Vec<u64> = if ctx.tier.thorough() { vec![5, 6, 7, 10, 100, 1000, 10_000, 100_000] } else { vec![5, 10, 100, 10_000] };
-        let sub = Sub::new("long-lists", "rotating-pattern lists of the stated lengths x 15 tails, same oracle", &format!("lengths {:?}", lens));
+        let sub = Sub::new("long-lists", "rotating-pattern lists of the stated lengths x 17 tails, same oracle", &format!("lengths {:?}", lens));
         let total = lens.len() as u64 * nt;
         let accs = par_ranks(total, |rank, acc| {
             let n = lens[(rank / nt) as usize];
